@@ -13,7 +13,10 @@ EXPLANATION = (
     "may be None is tested by identity, never by truthiness (an empty graph or a default-graph marker is falsy); "
     "(c) the TriX reader resets its per-graph state when a graph element ends, so an unnamed graph never inherits the "
     "previous graph; (d) RDF Patch: delete rows address exactly one graph (get_context(name) or the default context), "
-    "never the whole dataset. Value-level round trip and the RDF Patch diff algebra are not decided."
+    "never the whole dataset. Later layers (rules f-aa) pin repaired defects of the quad writers by structural clauses: the TriX/XML writer (everything "
+    "goes through the encoding writer, character references for what the encoding lacks, xmlns declarations only for NCName prefixes), the RDF Patch diff (graph "
+    "names keep their term kind), the JSON-LD writer (graph named by the base, @context written back in full, map containers, @vocab-relative names, list folding "
+    "and its bookkeeping, literals under IRI-coercing terms). Value-level round trip and the RDF Patch diff algebra are not decided."
 )
 
 QUAD_SER = ("nquads", "trig", "trix", "jsonld", "hext", "patch")
@@ -207,15 +210,38 @@ def run(repo: Repo, rep: Report) -> None:
     if not loops:
         raise AnalysisError("TrigSerializer.preprocess: loop over the contexts not found")
     if uses_count:
+        from vlib import h_c06 as H
+        from vlib.cfg import CFG
+
         lp = loops[0]
         cvar = norm(lp.target)
         hit = None
-        for st in lp.body:  # top level of the loop body: executed for every context that is not skipped
-            cand = [st] if isinstance(st, (ast.AugAssign, ast.Assign)) else ([x for x in st.body if isinstance(x, (ast.AugAssign, ast.Assign))] if isinstance(st, ast.If) and not st.orelse and "BNode" in norm(st.test) else [])
-            for x in cand:
-                tgt = x.target if isinstance(x, ast.AugAssign) else x.targets[0]
-                if isinstance(tgt, ast.Subscript) and norm(tgt.value).endswith("_references") and norm(tgt.slice) == "%s.identifier" % cvar:
-                    hit = x
+        pdefs = H.local_defs(pre)
+        pcfg = CFG(pre)
+
+        def is_label(e: ast.AST) -> bool:
+            # the name of the graph written in this iteration: <loop variable>.identifier
+            return isinstance(e, ast.Attribute) and e.attr == "identifier" and norm(e.value) == cvar
+
+        def label_of_this_graph(e: ast.AST, at: ast.stmt) -> bool:
+            """e evaluates to the identifier of the context of THIS iteration: `<loop variable>.identifier` itself, or a local
+            every definition of which is exactly that and which is (re)bound in this iteration on every path to the statement"""
+            if len(H.binding_stmts(pre, cvar)) != 1:  # (the loop variable is bound by the loop alone)
+                return False
+            if is_label(e):
+                return True
+            return isinstance(e, ast.Name) and H.denotes(e, is_label, pdefs, depth=1) and H.fresh_in_iteration(pcfg, lp, pre, e.id, at)
+
+        # the increment (alone, or as a statement of `if <the label is a BNode>:` without else) is executed for every context that is not skipped:
+        # no pass through the loop body comes round to the head again - other than by `continue`, which skips the graph - without it
+        for x in [n for s_ in lp.body for n in ast.walk(s_) if isinstance(n, (ast.AugAssign, ast.Assign))]:
+            tgt = x.target if isinstance(x, ast.AugAssign) else x.targets[0]
+            if not (isinstance(tgt, ast.Subscript) and norm(tgt.value).endswith("_references") and label_of_this_graph(tgt.slice, x)):
+                continue
+            par = tg.parent.get(id(x))
+            guard = par if isinstance(par, ast.If) and any(x is b for b in par.body) and not par.orelse and "BNode" in norm(par.test) else None
+            if H.on_every_pass(pcfg, lp, guard if guard is not None else x):
+                hit = x
         rep.ob("C06.e-trig-graph-label-is-a-reference", tg, "TrigSerializer.preprocess", hit if hit is not None else "self._references[%s.identifier] is incremented per written graph" % cvar,
                hit is not None, "graph label counted" if hit is not None else
                "the graph label is not counted as a reference: `<s> <p> _:g` inside one graph, with _:g also the name of another graph, is written as `<s> <p> [ ]` while the graph block keeps `_:g {`: after parsing, the object and the graph name are different blank nodes", node=hit or pre)
@@ -230,11 +256,13 @@ def _assigned_unconditionally_before(loop: ast.For, name: str, site: ast.AST) ->
     return False
 
 
+from vlib.core import layer as _layer  # noqa: E402
+
 _run_base = run
 
 
 def run(repo: Repo, rep: Report) -> None:  # noqa: F811
-    _run_base(repo, rep)
+    _layer(rep, _run_base, repo)
     from vlib import argswap
 
     rep.rule("C06.f-no-swapped-graph-arguments",
@@ -249,7 +277,7 @@ _run_base2 = run
 
 
 def run(repo: Repo, rep: Report) -> None:  # noqa: F811
-    _run_base2(repo, rep)
+    _layer(rep, _run_base2, repo)
     typed = repo.typed
     # ------------------------------------------------------------------ (g)
     rep.rule("C06.g-rows-of-a-graph-come-from-its-own-view",
@@ -277,16 +305,22 @@ _run_base3 = run
 
 
 def run(repo: Repo, rep: Report) -> None:  # noqa: F811
-    _run_base3(repo, rep)
+    _layer(rep, _run_base3, repo)
     rep.rule("C06.h-trix-unnamed-graph-is-a-fresh-blank-node-graph",
              "the TriX writer names the default graph explicitly (<uri>) and writes a blank-node-named graph WITHOUT a name element; the TriX reader therefore gives a <graph> "
              "element without a name a graph of its own with a fresh blank-node identifier (Graph(store=...) without identifier), never the dataset's default graph - otherwise "
              "blank-node-named graphs are merged into the default graph on the way back", floor=2)
     ts = repo.mod("rdflib.plugins.serializers.trix")
-    wg = ts.func("TriXSerializer._writeGraph")
-    named_only_uri = any(isinstance(n, ast.If) and "isinstance" in norm(n.test) and "URIRef" in norm(n.test) and ".identifier" in norm(n.test) for n in own_nodes(wg))
-    rep.ob("C06.h-trix-unnamed-graph-is-a-fresh-blank-node-graph", ts, "TriXSerializer._writeGraph", "a name element is written only for IRI-named graphs", named_only_uri,
-           "" if named_only_uri else "the writer's naming scheme changed: re-derive the reader's obligation", node=wg)
+    from vlib import h_c06 as H
+
+    # (the code that writes a graph element: what the public TriXSerializer.serialize reaches on self, whatever the helpers are called)
+    wscope = H.reach_methods(ts, "TriXSerializer", ["serialize"])
+    if "serialize" not in wscope:
+        raise AnalysisError("TriXSerializer.serialize not found")
+    wg = next((fn for fn in wscope.values() for n in own_nodes(fn) if isinstance(n, ast.If) and "isinstance" in norm(n.test) and "URIRef" in norm(n.test) and ".identifier" in norm(n.test)), None)
+    named_only_uri = wg is not None
+    rep.ob("C06.h-trix-unnamed-graph-is-a-fresh-blank-node-graph", ts, "TriXSerializer.serialize", "a name element is written only for IRI-named graphs", named_only_uri,
+           "" if named_only_uri else "the writer's naming scheme changed: re-derive the reader's obligation", node=wg if wg is not None else wscope["serialize"])
     tp = repo.mod("rdflib.plugins.parsers.trix")
     sh = tp.func("TriXHandler.startElementNS")
     creations = [c for c in own_nodes(sh) if isinstance(c, ast.Call) and norm(c.func) == "Graph"]
@@ -316,7 +350,7 @@ def _has_type(typed, modname: str, e: ast.AST, base: str) -> bool:
 
 
 def run(repo: Repo, rep: Report) -> None:  # noqa: F811
-    _run_base4(repo, rep)
+    _layer(rep, _run_base4, repo)
     from vlib import h_c06 as H
     from vlib.cfg import CFG
 
@@ -329,7 +363,10 @@ def run(repo: Repo, rep: Report) -> None:  # noqa: F811
              "default-graph quad in every graph - `ds1.serialize(format='patch', target=ds2)` with ds1 = {<s> <p> <o> <g>}, ds2 = ds1 + {<s> <p> <o>} (default graph), both "
              "default_union, found the new default-graph quad `in` ds1 and wrote no `A` row; the stored quads are compared instead (sets of quads())", floor=7)
     pser = repo.mod("rdflib.plugins.serializers.patch")
-    pser.func("PatchSerializer._diff")  # the two-dataset comparison lives here: anchor
+    # the two-dataset comparison lives in what PatchSerializer.serialize (the public entry point) reaches on self, however it is split into helpers: anchor
+    diff_scope = H.reach_methods(pser, "PatchSerializer", ["serialize"])
+    if "serialize" not in diff_scope:
+        raise AnalysisError("PatchSerializer.serialize not found")
     for name in QUAD_SER:
         mod = repo.mod("rdflib.plugins.serializers." + name)
         bad = 0
@@ -348,12 +385,15 @@ def run(repo: Repo, rep: Report) -> None:  # noqa: F811
                            "graphs when default_union is on - rows of the patch are dropped" % norm(hit[0]), node=n)
         rep.ob("C06.i-no-dataset-set-algebra-in-quad-serializers", mod, "<module>", "no dataset-level set algebra / membership in %s" % mod.rel, True,
                "" if not bad else "see the sites reported", node=mod.tree)
-    d = pser.func("PatchSerializer._diff")
     nset = 0
-    for n in own_nodes(d, include_nested=True):
-        if isinstance(n, ast.Compare) and any(isinstance(o, (ast.In, ast.NotIn)) for o in n.ops) and not any(_is_dataset(typed, pser.name, c) for c in n.comparators):
-            nset += 1
-    rep.ob("C06.i-no-dataset-set-algebra-in-quad-serializers", pser, "PatchSerializer._diff", "the difference is taken over plain collections of the stored quads", True,
+    d = diff_scope["serialize"]
+    for dn, df in diff_scope.items():
+        here = [n for n in own_nodes(df, include_nested=True) if isinstance(n, ast.Compare) and any(isinstance(o, (ast.In, ast.NotIn)) for o in n.ops)
+                and not any(_is_dataset(typed, pser.name, c) for c in n.comparators)]
+        if here and nset == 0:
+            d = df  # (the function the comparison is made in)
+        nset += len(here)
+    rep.ob("C06.i-no-dataset-set-algebra-in-quad-serializers", pser, "PatchSerializer.serialize", "the difference is taken over plain collections of the stored quads", True,
            "%d membership test(s), none on a dataset" % nset, node=d)
 
     # ------------------------------------------------------------------ (j)  F64
@@ -361,9 +401,12 @@ def run(repo: Repo, rep: Report) -> None:  # noqa: F811
              "in the parsers (all of rdflib.plugins.parsers), text of the document that becomes a term (flows into a call that yields an rdflib.term.Node: URIRef(...), BNode(...), self.get_bnode(...)) is "
              "trimmed only with an explicit character set made of characters that cannot be part of an IRI (XML white space ...): the argument-less str.strip()/lstrip()/rstrip() "
              "removes every Unicode white-space character, so the TriX element <uri>http://example.org/a&#xA0;</uri> came back as <http://example.org/a> (U+00A0, U+2003, U+3000 "
-             "are legal ucschar of an IRI and legal in a blank node label)", floor=4)
+             "are legal ucschar of an IRI and legal in a blank node label). (What is counted is the trims; that the rule still sees the TriX reader is required "
+             "separately, per kind of term: TriX has two elements whose text is the identity of a term, <uri> and <id>, so among the term makers that judged trims of "
+             "the TriX reader feed there is one that yields a URIRef and one that yields a BNode - however many trim sites the reader spells that with.)", floor=1)
     for name in QUAD_PAR:
         repo.mod("rdflib.plugins.parsers." + name)  # anchors
+    fed_kinds: dict[str, set[str]] = {}  # module -> kinds of term that judged trims of the module feed
     # (every parser module and the JSON-LD helpers are looked at: the same slip in another reader is the same defect)
     for mname in sorted(m for m in repo.modules if m.startswith("rdflib.plugins.parsers.") or m.startswith("rdflib.plugins.shared.jsonld.")):
         mod = repo.mod(mname)
@@ -374,8 +417,10 @@ def run(repo: Repo, rep: Report) -> None:  # noqa: F811
                 tf = typed.type_of(mod.name, c.func.value)
                 if tf is not None and not tf.any and "builtins.str" not in tf.items:
                     continue
-                if not _flows_into_term(repo, mod, f, q, c):
+                sinks = _term_sinks(repo, mod, f, q, c)
+                if not sinks:
                     continue
+                fed_kinds.setdefault(mod.name, set()).update(k for s_ in sinks for k in _term_kinds(repo, mod, s_))
                 if not c.args and not c.keywords:
                     rep.ob("C06.j-document-text-trimmed-by-the-formats-white-space-only", mod, q, c, False,
                            "argument-less %s() on text that becomes a term: a leading/trailing U+00A0 (or any other Unicode space) of the IRI / label is silently removed" % c.func.attr, node=c)
@@ -388,6 +433,12 @@ def run(repo: Repo, rep: Report) -> None:  # noqa: F811
                 rep.ob("C06.j-document-text-trimmed-by-the-formats-white-space-only", mod, q, c, not extra,
                        "explicit set of characters that cannot occur in an IRI" if not extra else
                        "the trimmed set contains %s, which can begin or end an IRI: such an IRI is changed on the way in" % ", ".join("U+%04X" % ord(x) for x in extra), node=c)
+
+    trix_terms = {"URIRef", "BNode"}  # <uri> and <id>
+    lost = trix_terms - fed_kinds.get("rdflib.plugins.parsers.trix", set())
+    if lost:
+        raise AnalysisError("rule C06.j: in the TriX reader no trimmed text of the document was seen to become a %s (the terms read from the text of <uri> / <id>; seen: %s) - "
+                            "the rule has lost its anchor" % (" / ".join(sorted(lost)), ", ".join(sorted(fed_kinds.get("rdflib.plugins.parsers.trix", set()))) or "none"))
 
     # ------------------------------------------------------------------ (k)  F147
     rep.rule("C06.k-recursion-over-graph-members-keeps-an-open-set",
@@ -579,18 +630,14 @@ def run(repo: Repo, rep: Report) -> None:  # noqa: F811
         raise AnalysisError("Converter.to_raw_value: the Literal branch was not found")
     nbare = 0
     for br in lit_branches:
-        for r in [x for s in br.body for x in ast.walk(s)]:
-            if not isinstance(r, ast.Return) or r.value is None or isinstance(r.value, ast.Dict):
+        # (the value returned for a literal: the returns of the branch, and of the code of this module the branch hands the literal on to)
+        for r, chain in H.delegated_returns(js, "Converter", rv, br.body):
+            if isinstance(r.value, ast.Dict):
                 continue
             nbare += 1
-            ok = False
-            for t in H.governing_tests(js, r, rv):
-                if t is br.test:
-                    break
-                for x in H.expand(t, rdefs):
-                    if isinstance(x, ast.Attribute) and x.attr == "language" and _has_type(typed, js.name, x.value, "rdflib.plugins.shared.jsonld.context.Context"):
-                        ok = True
-            rep.ob("C06.o-jsonld-bare-literal-value-considers-the-default-language", js, "Converter.to_raw_value", r, ok, "depends on the context's default language" if ok else
+            ok = any(isinstance(x, ast.Attribute) and x.attr == "language" and _has_type(typed, js.name, x.value, "rdflib.plugins.shared.jsonld.context.Context")
+                     for x, _frame in H.governing_nodes(js, rv, r, chain, stop=br.test))
+            rep.ob("C06.o-jsonld-bare-literal-value-considers-the-default-language", js, "Converter." + (chain[-1][2].name if chain else "to_raw_value"), r, ok, "depends on the context's default language" if ok else
                    "a bare value is returned for a literal without looking at the context's default @language: a string value (xsd:string, or an ill-typed literal's lexical form) is read back "
                    "with that language", node=r)
     if nbare < 2:
@@ -637,15 +684,65 @@ def run(repo: Repo, rep: Report) -> None:  # noqa: F811
 
 def _flows_into_term(repo: Repo, mod, f: ast.AST, q: str, c: ast.Call) -> bool:
     """Does the value of the expression c become (part of the argument of) a call whose static type is an rdflib term?"""
+    return bool(_term_sinks(repo, mod, f, q, c, first_only=True))
+
+
+def _term_kinds(repo: Repo, mod, sink: ast.Call, _depth: int = 1) -> set[str]:
+    """The kinds of term (class names of rdflib.term) a term-making call yields: by its static type; else, for a call of a method
+    of the same class / function of the module, what the term constructors in that callee yield; else the name called."""
+    from vlib import h_c06 as H
+
     typed = repo.typed
+    tf = typed.type_of(mod.name, sink)
+    kinds = {i.rsplit(".", 1)[-1] for i in (tf.items if tf is not None else []) if i.startswith("rdflib.term.") and typed.is_subclass(i, "rdflib.term.Node")}
+    if not kinds and _depth > 0:
+        q = mod.qual_of(sink)
+        while q and not isinstance(mod.defs.get(q), ast.ClassDef):
+            q = q.rsplit(".", 1)[0] if "." in q else ""
+        tgt = H.local_callee(mod, q or None, sink)
+        if tgt is not None:
+            for x in own_nodes(tgt[0], include_nested=True):
+                if isinstance(x, ast.Call) and x is not sink and (norm(x.func) in ("URIRef", "BNode", "Literal") or _has_type(typed, mod.name, x, "rdflib.term.Node")):
+                    kinds |= _term_kinds(repo, mod, x, _depth - 1)
+    return kinds or {norm(sink.func).rsplit(".", 1)[-1]}
+
+
+def _term_sinks(repo: Repo, mod, f: ast.AST, q: str, c: ast.Call, first_only: bool = False) -> list[ast.Call]:
+    """The term-making calls (static type an rdflib term, or a term constructor by name) that the value of the expression c becomes
+    (part of) an argument of: directly, through one local name / self attribute it is stored in, and through one call that hands
+    it to a method of the same class / a function of the module as a parameter (the term is then made over there)."""
+    from vlib import h_c06 as H
+
+    typed = repo.typed
+    sinks: list[ast.Call] = []
+    cls = q.rsplit(".", 1)[0] if "." in q else None
+    if not (cls and isinstance(mod.defs.get(cls), ast.ClassDef)):
+        cls = None
 
     def term_call(x: ast.AST) -> bool:
         return isinstance(x, ast.Call) and (_has_type(typed, mod.name, x, "rdflib.term.Node") or norm(x.func) in ("URIRef", "BNode", "Literal"))
 
+    def into_callee(call: ast.Call, carries) -> list[ast.Call]:
+        """term-making calls, inside the local callee of `call`, fed by a parameter for which the call passes an argument that carries the text"""
+        tgt = H.local_callee(mod, cls, call)
+        if tgt is None:
+            return []
+        callee, is_method = tgt
+        pos = [a.arg for a in callee.args.posonlyargs + callee.args.args]
+        fed = {pos[i + (1 if is_method else 0)] for i, a in enumerate(call.args)
+               if not isinstance(a, ast.Starred) and i + (1 if is_method else 0) < len(pos) and carries(a)}
+        fed |= {k.arg for k in call.keywords if k.arg and carries(k.value)}
+        return [x for x in own_nodes(callee, include_nested=True) if term_call(x) and any(
+            isinstance(y, ast.Name) and y.id in fed for a in list(x.args) + [k.value for k in x.keywords] for y in ast.walk(a))]  # type: ignore[misc]
+
     stmt = None
     for p in mod.parents(c):
         if term_call(p):
-            return True
+            return [p]  # type: ignore[list-item]
+        if isinstance(p, ast.Call):
+            inner = into_callee(p, lambda a: any(y is c for y in ast.walk(a)))
+            if inner:
+                return inner
         if isinstance(p, ast.stmt):
             stmt = p
             break
@@ -656,23 +753,537 @@ def _flows_into_term(repo: Repo, mod, f: ast.AST, q: str, c: ast.Call) -> bool:
     elif isinstance(stmt, (ast.AugAssign, ast.AnnAssign)) and isinstance(stmt.target, (ast.Name, ast.Attribute)):
         tgts = [norm(stmt.target)]
     if not tgts:
-        return False
-    cls = q.rsplit(".", 1)[0] if "." in q else None
+        return []
     fns = [f]
-    if cls and isinstance(mod.defs.get(cls), ast.ClassDef) and any(t.startswith("self.") for t in tgts):
+    if cls and any(t.startswith("self.") for t in tgts):
         fns = list(mod.methods(cls).values())
+
+    def carries_name(a: ast.AST) -> bool:
+        return any(isinstance(y, (ast.Name, ast.Attribute)) and norm(y) in tgts for y in ast.walk(a))
+
     for fn in fns:
         for x in own_nodes(fn, include_nested=True):
-            if term_call(x) and any(isinstance(y, (ast.Name, ast.Attribute)) and norm(y) in tgts for a in list(x.args) + [k.value for k in x.keywords] for y in ast.walk(a)):
-                return True
-    return False
+            if not isinstance(x, ast.Call):
+                continue
+            if term_call(x):
+                if any(carries_name(a) for a in list(x.args) + [k.value for k in x.keywords]):
+                    sinks.append(x)
+            else:
+                sinks += into_callee(x, carries_name)
+            if sinks and first_only:
+                return sinks
+    return sinks
+
+
+_run_base5 = run
+
+PLUGIN_IO = ("rdflib.plugins.parsers.", "rdflib.plugins.serializers.", "rdflib.plugins.shared.jsonld.")
+JSONLD_CONTEXT = "rdflib.plugins.shared.jsonld.context"
+
+
+def _rdflib_defs(typed, classes: list[str], module: str) -> set[str]:
+    """Non-dunder names defined in the bodies of the classes of `module` that are in the MRO of `classes`."""
+    out: set[str] = set()
+    for c in classes:
+        for b in typed.mro(c):
+            d = typed.classes.get(b)
+            if d and d.get("module") == module and b != "rdflib.term.Node":
+                out |= {x for x in d["defs"] if not (x.startswith("__") and x.endswith("__"))}
+    return out
+
+
+def _encoding_writers(repo: Repo) -> list[tuple]:
+    """(module, class name) of the serializer classes that wrap the byte stream in a codec writer (codecs.lookup / getwriter)."""
+    out = []
+    for mname in sorted(m for m in repo.modules if m.startswith("rdflib.plugins.serializers.")):
+        mod = repo.mod(mname)
+        for st in mod.tree.body:
+            if isinstance(st, ast.ClassDef):
+                init = mod.defs.get(st.name + ".__init__")
+                if isinstance(init, ast.FunctionDef) and any(isinstance(c, ast.Call) and norm(c.func) in ("codecs.lookup", "codecs.getwriter") for c in own_nodes(init)):
+                    out.append((mod, st.name))
+    return out
+
+
+def run(repo: Repo, rep: Report) -> None:  # noqa: F811
+    _layer(rep, _run_base5, repo)
+    from vlib import h_c06 as H
+
+    typed = repo.typed
+    io_mods = [repo.mod(m) for m in sorted(repo.modules) if m.startswith(PLUGIN_IO)]
+    ser_mods = [m for m in io_mods if m.name.startswith("rdflib.plugins.serializers.")]
+
+    # ------------------------------------------------------------------ (q)  F260
+    rep.rule("C06.q-graph-or-term-probe-uses-a-separating-attribute",
+             "in the parsers and serializers, a duck-type probe getattr(x, '<a>', ...) / hasattr(x, '<a>') on a value that may be a graph or a term does not use an attribute "
+             "that both the Graph classes and the term classes define: Identifier.identifier exists (it is str(self)), so `getattr(c, 'identifier', c)` over the rows of "
+             "Dataset.quads() - where c is the graph NAME - turned the blank node _:g into the str 'g', and the RDF Patch diff wrote the graph as <g>", floor=1)
+    g_attrs = _rdflib_defs(typed, ["rdflib.graph.Graph", "rdflib.graph.ConjunctiveGraph", "rdflib.graph.Dataset"], "rdflib.graph")
+    t_classes = [c for c in typed.subclasses("rdflib.term.Identifier") if not typed.is_subclass(c, "rdflib.graph.Graph")]
+    t_attrs = _rdflib_defs(typed, t_classes, "rdflib.term")
+    if "identifier" not in g_attrs or not t_classes:
+        raise AnalysisError("class facts: Graph.identifier / the term classes were not found")
+    both = g_attrs & t_attrs
+    tm = repo.mod("rdflib.term")
+    rep.ob("C06.q-graph-or-term-probe-uses-a-separating-attribute", tm, "Identifier", "attributes that do not tell a graph from a term: %s" % ", ".join(sorted(both)) or "-", True,
+           "defined by a Graph class and by a term class", node=tm.cls("Identifier"))
+    for mod in io_mods:
+        for q, f in mod.functions():
+            for c in own_nodes(f):
+                if not (isinstance(c, ast.Call) and isinstance(c.func, ast.Name) and c.func.id in ("getattr", "hasattr") and len(c.args) >= 2
+                        and isinstance(c.args[1], ast.Constant) and isinstance(c.args[1].value, str)):
+                    continue
+                a = c.args[1].value
+                if a not in g_attrs and a not in t_attrs:
+                    continue
+                tf = typed.type_of(mod.name, c.args[0])
+                if tf is not None and not tf.any and "builtins.object" not in tf.items and not any(
+                        typed.is_subclass(i, "rdflib.term.Node") for i in tf.items):
+                    continue  # statically neither a graph nor a term
+                rep.ob("C06.q-graph-or-term-probe-uses-a-separating-attribute", mod, q, c, a not in both,
+                       "'%s' separates graphs from terms" % a if a not in both else
+                       "every graph and every term has '%s': the probe never takes its default, a term is replaced by its %s (a str for a blank node or IRI: the kind of the term is lost)" % (a, a), node=c)
+
+    # ------------------------------------------------------------------ (r)  F261
+    writers = _encoding_writers(repo)
+    if not writers:
+        raise AnalysisError("no serializer class wraps its stream in a codec writer (XMLWriter was expected)")
+    wfull = {"%s.%s" % (m.name, c) for m, c in writers}
+    wshort = {c for m, c in writers}
+    rep.rule("C06.r-no-raw-write-beside-an-encoding-writer",
+             "a serializer function that hands its byte stream to an encoding writer (a class that wraps the stream with codecs.lookup(encoding): XMLWriter) writes nothing to the "
+             "raw stream itself: bytes written beside the writer are not in the encoding of the document - the final `stream.write('\\n'.encode('latin-1'))` of the TriX "
+             "serializer made a UTF-16 document end in half a code unit, which no XML parser reads", floor=2)
+    for mod in ser_mods:
+        for q, f in mod.functions():
+            for c in own_nodes(f):
+                if not isinstance(c, ast.Call):
+                    continue
+                tf = typed.type_of(mod.name, c)
+                if not ((tf is not None and any(i in wfull for i in tf.items)) or (isinstance(c.func, ast.Name) and c.func.id in wshort)):
+                    continue
+                raw = c.args[0] if c.args else next((k.value for k in c.keywords if k.arg == "stream"), None)
+                if not isinstance(raw, ast.Name):
+                    continue
+                bad = list(H.stream_write_calls(f, lambda r, _n=raw.id: isinstance(r, ast.Name) and r.id == _n))
+                for w in bad:
+                    rep.ob("C06.r-no-raw-write-beside-an-encoding-writer", mod, q, w, False,
+                           "`%s` is handed to %s, which encodes what it writes; this write goes to the raw stream and is not encoded with the document's encoding "
+                           "(encoding='utf-16': the document cannot be parsed)" % (raw.id, norm(c.func)), node=w)
+                if not bad:
+                    rep.ob("C06.r-no-raw-write-beside-an-encoding-writer", mod, q, c, True, "everything is written through the writer", node=c)
+
+    # ------------------------------------------------------------------ (s)  F262
+    rep.rule("C06.s-xml-character-data-is-written-with-character-references",
+             "an encoding writer (XMLWriter; its stream is a strict codec writer) passes every piece of character data - the result of xml.sax.saxutils.escape / quoteattr, "
+             "and a parameter written as it is (CDATA) - through a method of the class that replaces what the encoding does not have ('xmlcharrefreplace'); a raw write "
+             "is governed by a comparison with that method's result. Otherwise `Literal('\\u0416')` in a TriX document with encoding='latin-1' raises UnicodeEncodeError "
+             "instead of being written as &#1046;", floor=3)
+    for mod, cname in writers:
+        meths = mod.methods(cname)
+        sanit = {n for n, fn in meths.items() if any(isinstance(x, ast.Constant) and x.value == "xmlcharrefreplace" for x in ast.walk(fn))}
+        sanit_names = sanit | {"_%s%s" % (cname.lstrip("_"), n) for n in sanit if n.startswith("__") and not n.endswith("__")}  # (private names, also as mangled)
+        cd_funcs = H.imported_from(mod, "xml.sax.saxutils")
+
+        def sanitised(e: ast.AST, fn: ast.AST) -> bool:
+            for p in mod.parents(e):
+                if p is fn:
+                    break
+                if isinstance(p, ast.Call) and isinstance(p.func, ast.Attribute) and p.func.attr in sanit_names and norm(p.func.value) == "self":
+                    return True
+            return False
+
+        for mname, fn in meths.items():
+            if mname in sanit:
+                continue
+            q = "%s.%s" % (cname, mname)
+            for c in own_nodes(fn, include_nested=True):
+                if isinstance(c, ast.Call) and isinstance(c.func, ast.Name) and c.func.id in cd_funcs:
+                    ok = sanitised(c, fn)
+                    rep.ob("C06.s-xml-character-data-is-written-with-character-references", mod, q, c, ok,
+                           "through self.%s" % sorted(sanit)[0] if ok else
+                           "%s is written without a character reference for what the encoding of the document does not have: a non-Latin-1 character with encoding='latin-1' "
+                           "(or any non-ASCII one with 'ascii') raises UnicodeEncodeError%s" % (norm(c), "" if sanit else " (no method of %s uses 'xmlcharrefreplace')" % cname), node=c)
+            pars = set(H.params(fn)) - {"self"}
+            for w in H.stream_write_calls(fn, lambda r: norm(r) == "self.stream"):
+                if len(w.args) == 1 and isinstance(w.args[0], ast.Name) and w.args[0].id in pars:
+                    p = w.args[0].id
+                    ok = any(isinstance(x, ast.Compare) and H.mentions(x, p) and any(
+                        isinstance(y, ast.Call) and isinstance(y.func, ast.Attribute) and y.func.attr in sanit_names and norm(y.func.value) == "self" and any(H.mentions(a, p) for a in y.args)
+                        for y in ast.walk(x)) for t in H.governing_tests(mod, w, fn) for x in ast.walk(t))
+                    rep.ob("C06.s-xml-character-data-is-written-with-character-references", mod, q, w, ok,
+                           "written as it is only when self.%s leaves it unchanged" % sorted(sanit)[0] if ok else
+                           "the parameter %s is written as it is (CDATA) without a test that the encoding has all its characters: UnicodeEncodeError for a character the encoding "
+                           "does not have" % p, node=w)
+    # (what a quad serializer writes to the writer's stream directly is constant markup)
+    for name in QUAD_SER:
+        mod = repo.mod("rdflib.plugins.serializers." + name)
+        for q, f in mod.functions():
+            def through_writer(r: ast.AST, _m=mod) -> bool:
+                if not (isinstance(r, ast.Attribute) and r.attr == "stream"):
+                    return False
+                tf = typed.type_of(_m.name, r.value)
+                return tf is not None and any(i in wfull for i in tf.items)
+            for w in H.stream_write_calls(f, through_writer):
+                ok = all(isinstance(a, ast.Constant) for a in w.args)
+                rep.ob("C06.s-xml-character-data-is-written-with-character-references", mod, q, w, ok,
+                       "constant markup" if ok else "data is written to the writer's stream directly, without character references for what the encoding does not have", node=w)
+
+    # ------------------------------------------------------------------ (t)  F263
+    rep.rule("C06.t-xmlns-declarations-only-for-ncname-prefixes",
+             "a serializer that writes `xmlns:<prefix>=` declarations for the bindings of the graph (an iteration over <namespace manager>.namespaces()) declares a binding only "
+             "after is_ncname(prefix) and a comparison of the prefix with 'xmlns': the JSON-LD parser binds the context term '3d' as a prefix, and `xmlns:3d=...` in the "
+             "TriX document made it one that is not well-formed", floor=1)
+    for mod in ser_mods:
+        for q, f in mod.functions():
+            defs = H.local_defs(f)
+            for loop in [n for n in own_nodes(f) if isinstance(n, ast.For)]:
+                if not (isinstance(loop.target, ast.Tuple) and loop.target.elts and isinstance(loop.target.elts[0], ast.Name)):
+                    continue
+                pfx = loop.target.elts[0].id
+                decls = [c for s in loop.body for c in ast.walk(s) if isinstance(c, ast.Call) and any(
+                    isinstance(x, ast.Constant) and isinstance(x.value, str) and "xmlns:" in x.value for a in c.args for x in ast.walk(a)) and any(H.mentions(a, pfx) for a in c.args)]
+                if not decls:
+                    continue
+                for src in H.expand(loop.iter, defs):
+                    if not (isinstance(src, ast.Call) and isinstance(src.func, ast.Attribute) and src.func.attr == "namespaces" and not src.args and not src.keywords):
+                        continue
+                    tf = typed.type_of(mod.name, src.func.value)
+                    if tf is not None and not tf.any and not any(i.endswith(".NamespaceManager") or typed.is_subclass(i, "rdflib.graph.Graph") for i in tf.items):
+                        continue
+                    comp = next((p for p in mod.parents(src) if isinstance(p, ast.comprehension)), None)
+                    if comp is not None and comp.iter is src and isinstance(comp.target, ast.Tuple) and comp.target.elts and isinstance(comp.target.elts[0], ast.Name):
+                        v, tests = comp.target.elts[0].id, list(comp.ifs)
+                    else:
+                        v, tests = pfx, [t for d in decls for t in H.governing_tests(mod, d, f)]
+                        # (or a guard at the top of the loop body: `if not is_ncname(prefix) ...: continue`)
+                        tests += [st.test for st in loop.body if isinstance(st, ast.If) and any(isinstance(x, ast.Continue) for x in st.body)]
+                    nc = any(isinstance(x, ast.Call) and norm(x.func).split(".")[-1] == "is_ncname" and x.args and H.mentions(x.args[0], v) for t in tests for x in ast.walk(t))
+                    xm = any(isinstance(x, ast.Compare) and H.mentions(x, v) and H.has_const(x, "xmlns") for t in tests for x in ast.walk(t))
+                    rep.ob("C06.t-xmlns-declarations-only-for-ncname-prefixes", mod, q, "%s -> %s" % (norm(src), norm(decls[0])[:70]), nc and xm,
+                           "filtered by is_ncname and against 'xmlns'" if nc and xm else
+                           "every binding of the graph is declared%s: a prefix that is no NCName ('3d', '1x') or is 'xmlns' gives a document that is not well-formed XML" %
+                           ("" if not nc else " that is an NCName, 'xmlns' included"), node=src)
+
+    js = repo.mod("rdflib.plugins.serializers.jsonld")
+    cx = repo.mod(JSONLD_CONTEXT)
+    CTX = JSONLD_CONTEXT + ".Context"
+
+    # ------------------------------------------------------------------ (u)  F293
+    rep.rule("C06.u-compacted-iri-absent-by-identity",
+             "in the quad serializers, a local name that is None for 'absent' and otherwise holds the result of a Context method that compacts an IRI (shrink_iri, to_symbol: "
+             "the IRI that equals the base is shrunk to '') is tested with `is None`, never by truthiness: `if not graphname and len(nodes) == 1` wrote the only node of the "
+             "named graph <base> unwrapped, i.e. into the default graph", floor=1)
+    for name in QUAD_SER:
+        mod = repo.mod("rdflib.plugins.serializers." + name)
+        for q, f in mod.functions():
+            if "." in q and isinstance(mod.defs.get(q.rsplit(".", 1)[0]), ast.FunctionDef):
+                continue
+            defs = H.local_defs(f)
+            for v, vals in sorted(defs.items()):
+                if not any(H.is_const(d, None) for d in vals):
+                    continue
+                if not any(isinstance(d, ast.Call) and any(t.startswith(CTX + ".") for t in typed.callees(mod.name, d)) and
+                           (lambda tf: tf is not None and "builtins.str" in tf.items)(typed.type_of(mod.name, d)) for d in vals):
+                    continue
+                seen_u: set[int] = set()
+                for e, owner, kind in truthy.bool_contexts(f):
+                    if isinstance(e, ast.Name) and e.id == v and id(e) not in seen_u:
+                        seen_u.add(id(e))
+                        rep.ob("C06.u-compacted-iri-absent-by-identity", mod, q, "%s [in %s: %s]" % (v, kind, norm(getattr(owner, "test", owner))[:70]), False,
+                               "%s is None when there is no name and '' when the IRI is the base: by truthiness the graph (node) named by the base is taken for an unnamed one" % v, node=e)
+                for n in own_nodes(f, include_nested=True):
+                    if isinstance(n, ast.Compare) and isinstance(n.left, ast.Name) and n.left.id == v and isinstance(n.ops[0], (ast.Is, ast.IsNot)) and H.is_const(n.comparators[0], None):
+                        rep.ob("C06.u-compacted-iri-absent-by-identity", mod, q, n, True, "tested by identity", node=n)
+
+    # ------------------------------------------------------------------ (v)  F294
+    rep.rule("C06.v-context-to-dict-writes-what-compaction-reads",
+             "Context.load (through _read_source) stores context-wide settings (@vocab, @base, @language ...) in attributes; every such attribute that the JSON-LD serializer's compaction "
+             "reads - in the Context methods the serializer calls, or directly - is written back under its key by Context.to_dict(): from_rdf() emits to_dict() as the "
+             "@context of the document when it is given a Context instance, and a property shortened against @vocab cannot be expanded again by a @context without @vocab", floor=3)
+    # (the code that reads a context document: what the public Context.load reaches on self - _read_source today)
+    rscope = H.reach_methods(cx, "Context", ["load"])
+    if "load" not in rscope:
+        raise AnalysisError("Context.load not found")
+    td = cx.func("Context.to_dict")
+    pairs: dict[str, tuple[str, str]] = {}  # keyword -> (constant name, attribute)
+    for n in [x for rs in rscope.values() for x in own_nodes(rs)]:
+        if not (isinstance(n, ast.Assign) and len(n.targets) == 1 and isinstance(n.targets[0], ast.Attribute) and norm(n.targets[0].value) == "self"):
+            continue
+        attr = n.targets[0].attr
+        cands: list[ast.Name] = []
+        if isinstance(n.value, ast.Call) and isinstance(n.value.func, ast.Attribute) and n.value.func.attr == "get" and n.value.args and isinstance(n.value.args[0], ast.Name):
+            cands.append(n.value.args[0])
+        for t in H.body_tests(cx, n):  # `elif key == K: ... self.attr = value`
+            here = [s for x in ast.walk(t) if isinstance(x, ast.Compare) and len(x.ops) == 1 and isinstance(x.ops[0], ast.Eq)
+                    for s in (x.left, x.comparators[0]) if isinstance(s, ast.Name) and H.key_value(repo, cx, s.id) is not None]
+            if here:
+                cands += here
+                break
+        for k in cands:
+            kv = H.key_value(repo, cx, k.id)
+            if kv is not None:
+                pairs[kv] = (k.id, attr)
+    if len(pairs) < 3:
+        raise AnalysisError("Context.load and the methods it calls: expected >= 3 (keyword, attribute) settings, found %s" % sorted(pairs))
+    cmeths = cx.methods("Context")
+    called = set()
+    direct = set()
+    for q, f in js.functions():
+        for n in own_nodes(f):
+            if isinstance(n, ast.Attribute) and isinstance(n.ctx, ast.Load):
+                tf = typed.type_of(js.name, n.value)
+                if tf is not None and CTX in tf.items:
+                    (called if n.attr in cmeths else direct).add(n.attr)
+    called.discard("to_dict")
+    for _ in range(3):
+        called |= {m for c in list(called) if c in cmeths for m in H.self_calls(cmeths[c]) if m in cmeths}
+    reads = set(direct)
+    for c in called:
+        reads |= H.self_attr_reads(cmeths[c])
+    if not called:
+        raise AnalysisError("the JSON-LD serializer calls no Context method")
+    written: dict[str, str] = {}
+    for n in own_nodes(td):
+        kvs: list[tuple[ast.AST, ast.AST]] = []
+        if isinstance(n, ast.Assign) and isinstance(n.targets[0], ast.Subscript):
+            kvs.append((n.targets[0].slice, n.value))
+        if isinstance(n, ast.Dict):
+            kvs += [(k, v) for k, v in zip(n.keys, n.values) if k is not None]
+        for k, v in kvs:
+            kv = H.key_value(repo, cx, k.id) if isinstance(k, ast.Name) else (k.value if isinstance(k, ast.Constant) else None)
+            if isinstance(kv, str):
+                written[kv] = norm(v)
+    for kv, (kname, attr) in sorted(pairs.items()):
+        used = attr in reads or bool(H.setter_writes(cx, "Context", attr) & reads)
+        if not used:
+            continue
+        ok = kv in written and ("self.%s" % attr) in written[kv]
+        rep.ob("C06.v-context-to-dict-writes-what-compaction-reads", cx, "Context.to_dict", "r[%s] = self.%s" % (kname, attr), ok,
+               "written back" if ok else
+               "the serializer's compaction reads self.%s (set from %s by _read_source) but to_dict() does not write %s: given a Context instance, the document's @context lacks it and "
+               "the names shortened against it do not expand to the IRIs they were made from" % (attr, kv, kv), node=td)
+
+    # ------------------------------------------------------------------ (w)  F295
+    rep.rule("C06.w-jsonld-writer-considers-every-container-the-reader-interprets",
+             "every @container keyword K for which the JSON-LD reader has a test `K in term.container` (it reads the value under such a term in a special way: as a list, a language "
+             "map, an index / id / type / graph map) is looked at by Converter.add_to_node before the term's name is used as the key - by a test `K in term.container` of its own or "
+             "by a test of term.container against a constant set that has K: under a term with \"@container\": \"@index\" the value object {\"@id\": \"http://e/o\"} was read "
+             "back as the map {index: value}, i.e. as the literal \"http://e/o\"", floor=4)
+    jp = repo.mod("rdflib.plugins.parsers.jsonld")
+
+    def container_tests(mod, fn) -> dict[str, ast.AST]:
+        out: dict[str, ast.AST] = {}
+        for n in own_nodes(fn, include_nested=True):
+            if isinstance(n, ast.Compare) and len(n.ops) == 1 and isinstance(n.ops[0], (ast.In, ast.NotIn)) and isinstance(n.left, ast.Name) \
+                    and isinstance(n.comparators[0], ast.Attribute) and n.comparators[0].attr == "container":
+                kv = H.key_value(repo, mod, n.left.id)
+                if kv is not None:
+                    out.setdefault(kv, n)
+        return out
+
+    reader: dict[str, tuple[str, ast.AST]] = {}
+    for q, f in jp.functions():
+        for kv, n in container_tests(jp, f).items():
+            reader.setdefault(kv, (q, n))
+    an = js.func("Converter.add_to_node")
+    writer = set(container_tests(js, an))
+    for n in own_nodes(an):  # tests of term.container against a module-level constant collection of keywords
+        if isinstance(n, (ast.Call, ast.BinOp, ast.Compare)) and any(isinstance(x, ast.Attribute) and x.attr == "container" for x in ast.walk(n)):
+            for x in ast.walk(n):
+                if isinstance(x, ast.Name) and H.key_value(repo, js, x.id) is None:
+                    for st in js.tree.body:
+                        if isinstance(st, ast.Assign) and any(isinstance(t, ast.Name) and t.id == x.id for t in st.targets):
+                            writer |= {kv for y in ast.walk(st.value) if isinstance(y, ast.Name) for kv in [H.key_value(repo, js, y.id)] if kv is not None}
+    if len(reader) < 4:
+        raise AnalysisError("JSON-LD parser: expected >= 4 containers tested with `K in term.container`, found %s" % sorted(reader))
+    for kv, (q, n) in sorted(reader.items()):
+        rep.ob("C06.w-jsonld-writer-considers-every-container-the-reader-interprets", js, "Converter.add_to_node", "%s [reader: %s in %s]" % (kv, norm(n), q), kv in writer,
+               "considered by the writer" if kv in writer else
+               "the reader interprets the value under a term with the container %s in its own way, the writer uses such a term as the key of an ordinary value object: "
+               "the value comes back as the entries of a map (an IRI object as a literal, or as statements about other nodes)" % kv, node=an)
+
+    # ------------------------------------------------------------------ (x)  F296
+    rep.rule("C06.x-vocab-relative-name-must-read-back-as-a-term",
+             "a Context method that compacts an IRI to its @vocab-relative name returns the name only under tests that it is not empty, has no ':' (Context._prep_expand reads "
+             "a name with a colon as a compact or absolute IRI) and does not start with '@' (Context._accept_term drops keyword-like names): with @vocab <http://v/>, "
+             "<http://v/taxon:9606> was written as \"taxon:9606\" and read back as the IRI <taxon:9606>", floor=3)
+    # (the reader's side: what the public Context.expand reaches on self splits a name at ':' - _prep_expand today -, and what expand / add_term / load reach
+    # refuses keyword-like names - _accept_term today)
+    pe = H.reach_methods(cx, "Context", ["expand"])
+    at = H.reach_methods(cx, "Context", ["expand", "add_term", "load"])
+    if not any(isinstance(n, ast.Compare) and H.has_const(n, ":") for fn in pe.values() for n in own_nodes(fn)) or \
+            not any(isinstance(n, ast.Compare) and H.has_const(n, "@") for fn in at.values() for n in own_nodes(fn)):
+        raise AnalysisError("Context.expand / add_term / load: the reader's tests for ':' and '@' were not found")
+    for mname, f in cmeths.items():
+        fdefs = H.local_defs(f)
+        fpars = set(H.params(f))
+        for n in own_nodes(f):
+            if not (isinstance(n, ast.If) and any(isinstance(x, ast.Compare) and any(norm(o) == "self.vocab" for o in [x.left] + x.comparators) and isinstance(x.ops[0], ast.Eq) for x in ast.walk(n.test))):
+                continue
+            for r in [x for s in n.body for x in ast.walk(s)]:
+                if not (isinstance(r, ast.Return) and isinstance(r.value, ast.Name) and r.value.id not in fpars):
+                    continue
+                v = r.value.id
+                tests = H.governing_tests(cx, r, f)
+                nodes = [x for t in tests for x in H.expand(t, {k: d for k, d in fdefs.items() if k != v})]
+                colon = any(isinstance(x, (ast.Compare, ast.Call)) and H.has_const(x, ":") and H.mentions(x, v) for x in nodes)
+                kw = any(isinstance(x, (ast.Compare, ast.Call)) and H.mentions(x, v) and (H.has_const(x, "@") or (isinstance(x, ast.Call) and norm(x.func) == "self._accept_term")) for x in nodes)
+                nonempty = any(isinstance(e, ast.Name) and e.id == v for t in tests for e in truthy.tested_exprs(t)) or any(
+                    isinstance(x, ast.Compare) and H.mentions(x, v) and (H.has_const(x, "") or any(isinstance(y, ast.Call) and norm(y.func) == "len" for y in ast.walk(x))) for x in nodes)
+                for what, ok, bad in (("has no ':'", colon, "with a colon ('taxon:9606' for <vocab + 'taxon:9606'>) is read back as a compact or absolute IRI"),
+                                      ("does not start with '@'", kw, "that starts with '@' ('@type' for <vocab + '@type'>) is read back as a keyword or dropped"),
+                                      ("is not empty", nonempty, "that is empty (the IRI equal to @vocab itself) is the key \"\", which is no term")):
+                    rep.ob("C06.x-vocab-relative-name-must-read-back-as-a-term", cx, "Context." + mname, "%s %s [%s under %s]" % (v, what, norm(r), norm(n.test)[:80]), ok,
+                           "tested" if ok else "the @vocab-relative name is returned without a test that it %s: a name %s" % (what, bad), node=r)
+
+    # ------------------------------------------------------------------ (y)  F297
+    rep.rule("C06.y-a-probing-call-does-not-record-state",
+             "JSON-LD Converter: a method call whose result is only tested (it stands inside the test of an if / conditional expression / boolean operation and is not bound to a "
+             "name) does not change the converter's record of what has been written: every statement of the callee that mutates a self attribute is governed by a flag parameter "
+             "and the probing call passes the constant that switches it off. add_to_node asks to_collection(...) is not None merely to choose between terms; when that call "
+             "recorded the cells in self._list_cells and the chosen term was one coerced to @id, only a reference to the head was written and the rdf:first/rdf:rest "
+             "statements of the whole list were left out of the document", floor=1)
+    conv = js.methods("Converter")
+    MUT = ("add", "update", "append", "extend", "discard", "remove", "pop", "clear", "setdefault", "insert")
+    for mname, f in conv.items():
+        for c in own_nodes(f, include_nested=True):
+            if not (isinstance(c, ast.Call) and isinstance(c.func, ast.Attribute) and norm(c.func.value) == "self" and c.func.attr in conv):
+                continue
+            par = js.parent.get(id(c))
+            # (the value is thrown away when the call itself is compared with None, wherever that comparison stands)
+            probing = isinstance(par, ast.Compare) and len(par.ops) == 1 and isinstance(par.ops[0], (ast.Is, ast.IsNot)) and any(H.is_const(x, None) for x in [par.left] + par.comparators)
+            child: ast.AST = c
+            for p in js.parents(c):
+                if probing or (isinstance(p, (ast.If, ast.While, ast.IfExp)) and child is p.test):
+                    probing = True
+                    break
+                if isinstance(p, (ast.stmt, ast.Call, ast.Lambda, ast.NamedExpr, ast.comprehension)) or (isinstance(p, ast.IfExp) and child is not p.test):
+                    break
+                child = p
+            if not probing:
+                continue
+            callee = conv[c.func.attr]
+            muts = [s for s in own_nodes(callee) if
+                    (isinstance(s, ast.Expr) and isinstance(s.value, ast.Call) and isinstance(s.value.func, ast.Attribute) and s.value.func.attr in MUT and norm(s.value.func.value).startswith("self."))
+                    or (isinstance(s, (ast.Assign, ast.AugAssign)) and any(norm(t).startswith("self.") for t in (s.targets if isinstance(s, ast.Assign) else [s.target])))]
+            if not muts:
+                continue
+            cpars = set(H.params(callee)) - {"self"}
+            problems = []
+            for s in muts:
+                off = False
+                for t in H.governing_tests(js, s, callee):
+                    want = None  # the truth value of the argument that switches the mutation off
+                    if isinstance(t, ast.Name) and t.id in cpars:
+                        flag, want = t.id, False
+                    elif isinstance(t, ast.UnaryOp) and isinstance(t.op, ast.Not) and isinstance(t.operand, ast.Name) and t.operand.id in cpars:
+                        flag, want = t.operand.id, True
+                    if want is None:
+                        continue
+                    a = H.arg_for(c, callee, flag)
+                    if a is None:
+                        a = H.default_of(callee, flag)
+                    if isinstance(a, ast.Constant) and bool(a.value) is want:
+                        off = True
+                if not off:
+                    problems.append(norm(s))
+            rep.ob("C06.y-a-probing-call-does-not-record-state", js, "Converter." + mname, c, not problems,
+                   "the call switches the record keeping of %s off" % c.func.attr if not problems else
+                   "the result of this call is only tested, yet %s executes `%s`: what the probe marks as written (the cells of a list) is skipped later although nothing was written "
+                   "for it - the statements are missing from the document" % (c.func.attr, problems[0][:80]), node=c)
+
+    # ------------------------------------------------------------------ (z)  F298
+    rep.rule("C06.z-literal-under-an-iri-coercing-term-is-a-value-object",
+             "JSON-LD Converter.to_raw_value returns a literal as a bare JSON value only under a test of a parameter (other than the value itself) through which the caller says "
+             "that the term coerces strings to IRIs; the recursion over list members passes that parameter on, and every call from another method hands in an expression that "
+             "reads <term>.type: under {\"p\": {\"@type\": \"@id\", \"@container\": \"@list\"}} the list ( \"x\" ) was written as [\"x\"] and read back as ( <x> )", floor=5)
+    rv = js.func("Converter.to_raw_value")
+    rdefs = H.local_defs(rv)
+    rpars = [p for p in H.params(rv) if p != "self"]
+    lit_br = [n for n in own_nodes(rv) if isinstance(n, ast.If) and any(isinstance(x, ast.Call) and norm(x.func) == "isinstance" and len(x.args) == 2 and norm(x.args[1]) == "Literal" for x in ast.walk(n.test))]
+    if not lit_br:
+        raise AnalysisError("Converter.to_raw_value: the Literal branch was not found")
+    valpar = {x.id for br in lit_br for c in ast.walk(br.test) if isinstance(c, ast.Call) and norm(c.func) == "isinstance" for x in ast.walk(c.args[0]) if isinstance(x, ast.Name)}
+    flags: Optional[set] = None
+    bare = []
+    for br in lit_br:
+        # (as in rule o: a branch that hands the literal on to other code of the module returns what that code returns; a parameter of
+        # that code is followed back to the argument to_raw_value passes for it)
+        for r, chain in H.delegated_returns(js, "Converter", rv, br.body):
+            if not isinstance(r.value, ast.Dict):
+                bare.append(r)
+                seen = {x.id for x, frame in H.governing_nodes(js, rv, r, chain, stop=br.test) if frame == 0 and isinstance(x, ast.Name) and x.id in rpars and x.id not in valpar}
+                flags = seen if flags is None else flags & seen
+                rep.ob("C06.z-literal-under-an-iri-coercing-term-is-a-value-object", js, "Converter." + (chain[-1][2].name if chain else "to_raw_value"), r, bool(seen),
+                       "decided by the parameter %s" % ", ".join(sorted(seen)) if seen else
+                       "a bare value is returned for a literal whatever the term it is written under: under a term coerced to @id / @vocab the reader takes the string for an IRI", node=r)
+    if len(bare) < 2:
+        raise AnalysisError("Converter.to_raw_value: expected >= 2 bare returns in the Literal branch, found %d" % len(bare))
+    flags = flags or set()
+    for mname, f in conv.items():
+        fdefs = H.local_defs(f)
+        for c in own_nodes(f, include_nested=True):
+            if not (isinstance(c, ast.Call) and isinstance(c.func, ast.Attribute) and c.func.attr == "to_raw_value" and norm(c.func.value) == "self"):
+                continue
+            if f is rv:
+                ok = bool(flags) and all((lambda a, _fl=fl: a is not None and H.mentions(a, _fl))(H.arg_for(c, rv, fl)) for fl in flags)
+                why = "the members of a list are written without the caller's word on the term: ( \"x\" ) under a term coerced to @id is written as [\"x\"]"
+            else:
+                ok = False
+                for fl in flags:
+                    a = H.arg_for(c, rv, fl)
+                    if a is not None and any(isinstance(x, ast.Attribute) and x.attr == "type" and not _has_type(typed, js.name, x.value, "rdflib.term.Node") for x in H.expand(a, fdefs)):
+                        ok = True
+                why = "the call does not tell to_raw_value whether the term it writes under coerces strings to IRIs (no argument reads <term>.type): a literal is written bare and read back as an IRI"
+            rep.ob("C06.z-literal-under-an-iri-coercing-term-is-a-value-object", js, "Converter." + mname, c, ok, "the coercion of the term is handed in" if ok else why, node=c)
+
+    # ------------------------------------------------------------------ (aa)  F299
+    rep.rule("C06.aa-every-cell-of-a-folded-list-is-checked-against-the-written-nodes",
+             "JSON-LD Converter: to_raw_value folds a blank node into @list only if it is not a key of the map of node objects already written (`o.n3() not in nodemap`); "
+             "to_collection's walk applies the same membership test to EVERY cell (a `return None` governed by `<cursor ...> in <parameter>`) and every call hands the map in: with "
+             "only the head checked, a list reachable only through a cycle could have an inner cell written both as a node object and as a member of the @list, which reads "
+             "back as a second copy of the cell", floor=4)
+    tc = js.func("Converter.to_collection")
+    tpars = [p for p in H.params(tc) if p != "self"]
+    walks = []
+    for w in own_nodes(tc):
+        if isinstance(w, ast.While):
+            assigned = {t.id for s in ast.walk(w) if isinstance(s, ast.Assign) for t in s.targets if isinstance(t, ast.Name)}
+            cur = [x.id for x in ast.walk(w.test) if isinstance(x, ast.Name) and x.id in assigned]
+            if cur:
+                walks.append((w, cur[0]))
+    if not walks:
+        raise AnalysisError("Converter.to_collection: the walk over the cells was not found")
+    head_test = [n for n in own_nodes(rv) if isinstance(n, ast.Compare) and isinstance(n.ops[0], (ast.In, ast.NotIn)) and isinstance(n.comparators[0], ast.Name)
+                 and n.comparators[0].id in rpars and any(H.mentions(n.left, p) for p in valpar)]
+    rep.ob("C06.aa-every-cell-of-a-folded-list-is-checked-against-the-written-nodes", js, "Converter.to_raw_value", head_test[0] if head_test else "head test", True,
+           "the head is checked against the written nodes" if head_test else "to_raw_value no longer checks the head against a map of written nodes (premise gone)", node=head_test[0] if head_test else rv)
+    maps: set[str] = set()
+    for w, cur in walks:
+        for n in ast.walk(w):
+            if isinstance(n, ast.If) and any(isinstance(s, ast.Return) and (s.value is None or H.is_const(s.value, None)) for s in n.body):
+                for x in ast.walk(n.test):
+                    if isinstance(x, ast.Compare) and len(x.ops) == 1 and isinstance(x.ops[0], ast.In) and H.mentions(x.left, cur) and isinstance(x.comparators[0], ast.Name) and x.comparators[0].id in tpars:
+                        maps.add(x.comparators[0].id)
+    rep.ob("C06.aa-every-cell-of-a-folded-list-is-checked-against-the-written-nodes", js, "Converter.to_collection", "each cell: `<cell> in <map handed in>` -> return None", bool(maps) or not head_test,
+           "cells are checked against the parameter %s" % ", ".join(sorted(maps)) if maps else
+           "the walk does not ask, cell by cell, whether the cell is already written as a node object (no membership test of the cursor in a map handed in by the caller): only the "
+           "head is checked, an inner cell can be written twice", node=walks[0][0])
+    for mname, f in conv.items():
+        for c in own_nodes(f, include_nested=True):
+            if isinstance(c, ast.Call) and isinstance(c.func, ast.Attribute) and c.func.attr == "to_collection" and norm(c.func.value) == "self":
+                given = [H.arg_for(c, tc, m) for m in sorted(maps)]
+                ok = (bool(maps) and all(a is not None and not H.is_const(a, None) for a in given)) or not head_test
+                rep.ob("C06.aa-every-cell-of-a-folded-list-is-checked-against-the-written-nodes", js, "Converter." + mname, c, ok,
+                       "the map of written nodes is handed in" if ok else "the call does not hand the map of written node objects to the walk: the cells are not checked", node=c)
 
 
 _run_before_borrow = run
 
 
 def run(repo: Repo, rep: Report) -> None:  # noqa: F811
-    _run_before_borrow(repo, rep)
+    _layer(rep, _run_before_borrow, repo)
     from vlib.core import borrow
 
     borrow(repo, rep, "C06", "C12", ('C12.b2',))
